@@ -14,13 +14,27 @@ pub type PathId = usize;
 pub type IsLastLogMessage = bool;
 pub type Datum = (LogMessage, IsLastLogMessage);
 
-pub struct VMap<const N: usize> { pub keys: [PathId; N], pub vals: [Datum; N], pub len: usize }
+pub struct VMap<const N: usize> { pub keys: [PathId; N], pub vals: [Datum; N], pub len: usize, pub rot: usize }
+//@if path=src/bin/s4.rs regex="type\s+MapPathIdDatum\s*=\s*BTreeMap\s*<"
 impl<const N: usize> VMap<N> {
+    // BTreeMap: ascending key order
     pub fn iter_mut(&mut self) -> impl Iterator<Item = (&PathId, &mut Datum)> {
         let len = self.len;
         self.keys.iter().zip(self.vals.iter_mut()).take(len)
     }
 }
+//@else
+impl<const N: usize> VMap<N> {
+    // not a BTreeMap: iteration order unspecified -- modelled as an arbitrary rotation of the entries (no data movement)
+    pub fn iter_mut(&mut self) -> impl Iterator<Item = (&PathId, &mut Datum)> {
+        let len = self.len;
+        let rot = if len == 0 { 0 } else { self.rot % len };
+        let (va, vb) = self.vals[..len].split_at_mut(rot);
+        let (ka, kb) = self.keys[..len].split_at(rot);
+        kb.iter().zip(vb.iter_mut()).chain(ka.iter().zip(va.iter_mut()))
+    }
+}
+//@endif
 
 #[cfg(kani)]
 fn sel_check<const N: usize>(flip_tie: bool) {
@@ -30,7 +44,8 @@ fn sel_check<const N: usize>(flip_tie: bool) {
     kani::assume(len <= N);
     let mut i = 1;
     while i < N { kani::assume(keys[i - 1] < keys[i]); i += 1; }
-    let mut map_pathid_datum: VMap<N> = VMap { keys, vals: core::array::from_fn(|i| (LogMessage { dt: DateTimeL(dts[i]) }, false)), len };
+    let rot: usize = kani::any();
+    let mut map_pathid_datum: VMap<N> = VMap { keys, vals: core::array::from_fn(|i| (LogMessage { dt: DateTimeL(dts[i]) }, false)), len, rot };
 //@cut slice path=src/bin/s4.rs fn=processing_loop anchor="(pathid, log_message, is_last) = match " take=expr until="{" label=SEL
 //@head
     let r =
